@@ -124,6 +124,10 @@ def std_func(name):
                 return int.from_bytes(keccak(args[0].to_bytes(nbits // 8, "big")), "big")
 
             return f
+    if name == "f_vmaddr":  # address of a private key (vm.addr); keys outside (0, n) are outside the alphabet
+        from mc import secp
+
+        return lambda args, ws, rw: secp.address_of(args[0]) if secp.valid_key(args[0]) else 0
     if name.startswith("f_evm_"):
         rest = name[len("f_evm_"):]
         op, _, w = rest.rpartition("_")
